@@ -14,7 +14,7 @@ Code(e) ==
   ELSE IF LiftOK(e) THEN 0 ELSE 1
 Init == l = 1 /\ bad = <<>>
 Next == /\ l <= Len(Rec)
-        /\ LET c == Code(Rec[l]) IN bad' = IF c = 0 THEN bad ELSE Append(bad, <<l, c>>)
+        /\ LET c == Code(Rec[l]) IN bad' = IF c = 0 THEN bad ELSE (IF Len(bad) >= 5000 THEN bad ELSE Append(bad, <<l, c>>))
         /\ l' = l + 1
 Spec == Init /\ [][Next]_vars
 Done == l = Len(Rec) + 1
